@@ -103,6 +103,17 @@ func batch(res *evid.Result, bi int, root string) {
 		}
 		vs = append(vs, v)
 	}
+	// a copy that differs only in comments - including compiler line directives, which
+	// relabel the positions (file, line) of everything that follows them
+	{
+		lf := &gen.File{Pkg: "c9", Prelude: gen.Prelude("c9"), Funcs: append([]gen.Func{}, base.Funcs...)}
+		for i := range lf.Funcs {
+			if r.Intn(2) == 0 {
+				lf.Funcs[i].Text = fmt.Sprintf("//line zz_other%d.tmpl:%d\n", i, 1+r.Intn(50)) + lf.Funcs[i].Text
+			}
+		}
+		vs = append(vs, &pairs.Variant{File: lf, Rename: map[string]string{}})
+	}
 	load := func(pkg string, f *gen.File) ([]fnTopo, string, bool) {
 		path, err := pairs.WriteFP(dir, pkg, "p", f.Source())
 		if err != nil {
